@@ -128,6 +128,16 @@ func ServeMap(id, tier string) error {
 	if fn == nil {
 		return fmt.Errorf("check %s has no Map function", id)
 	}
+	// a worker stuck inside the code under check would outlive a parent that has exited: leave with it
+	parent := os.Getppid()
+	go func() {
+		for {
+			time.Sleep(2 * time.Second)
+			if os.Getppid() != parent {
+				os.Exit(0)
+			}
+		}
+	}()
 	in := bufio.NewReaderSize(os.Stdin, 1<<20)
 	outF := os.NewFile(3, "results")
 	out := bufio.NewWriterSize(outF, 1<<20)
